@@ -47,6 +47,10 @@ claimed = {
          "Theorems (every string, every nesting of containers/lists/leaf-lists, empty ones included): unescape(escape s) = s; writeDoc ms = render(obj(toJSON ms)); parseDoc(render v) = v (hence exactly one well-formed value that decodes to the intended one, also as a prefix of a longer text). Tie: all 8 configurations × start selections (root, container, list, entry) on generated schemas with every leaf type and nodes of an imported module: output decoded by encoding/json and compared with the expected RFC 7951 value; compact output compared byte-for-byte with the Lean model; pretty = compact modulo white space; output stream failing at every byte position must surface as an error.",
          "Trusted: Lean kernel, harness, encoding/json (byte-level lexing is not in Lean: tokens → bytes is tied by the correspondence); number formatting (strconv) passes through as text. 64-bit integers are expected as JSON numbers as the library documents.",
          "DESIGN.md §8 C15"),
+ "C19": ("Lean 4 theorems: XML character-data escaper/reference-decoder round trip; element tree ⇄ token stream with namespace declarations (compact and indented) by mutual structural induction; XMLWtr2 (tree builder) and XMLWtr (streaming) both produce the encoding of the data; XmlNode reading of that encoding returns the data; interleaving invariance; byte-level correspondence of both writers and reader correspondence on interleaved / foreign-namespace / namespace-less documents",
+         "Theorems (every text of XML-legal characters, every schema with distinct sibling qualified names, every conforming tree, any nesting): unescapeText(escapeText s) = s and the escaped text holds no '<', '>' or raw CR; parseDoc(render e) = e (well-formed, single root, namespaces resolved) and parseDoc(renderP e) = e decorated with indentation outside leaf text only; doc2 = docStream = render(docOf data); readBody schema (toXMLBody schema data) = data (also through write→parse→read for all three outputs); readBody depends on siblings only through the per-name subsequences; an element with a namespace is taken for a node iff local name and namespace agree. Tie: generated schemas (all leaf types, leaf-lists, lists, choices, imported grouping, augment) × trees with hostile strings: output parsed by encoding/xml (strict) and compared with the expected element tree; bytes compared with the three Lean writer models; ReadXMLDoc+UpsertFrom compared with the original and with the Lean reader model on 4 document variants; patch/xml EscapeText compared with the Lean escaper.",
+         "Trusted: Lean kernel, harness, reference store, encoding/xml as byte-level lexer (tokens → bytes is tied by the correspondence, not proved); the editor's callback order is the one proved/tied under C03/C12. Strings are limited to characters XML 1.0 can carry (= YANG string characters); the text of type empty is unconstrained.",
+         "DESIGN.md §8 C19"),
  "C17": ("Lean 4 theorems over the Compare/lookup model; go/ast translator regenerates the Compare-shape table the theorems quantify over; differential correspondence against val.Compare/Equal/CompareVals and Find on slice-backed lists",
          "Theorems (all operand widths, all operands, all key lists): every Compare shape found in val/types.go has the sign of the mathematical difference; equality is an equivalence, order a strict total order; CompareVals is lexicographic; sort.Search+EqualVals and the linear scan return exactly the entry with the requested key. Tie: table regenerated from source on every run and closed by `decide`; 8-bit types compared exhaustively with the model, wider ones on boundary squares.",
          "Trusted: Lean kernel, extractor (regex classification of gofmt-normalised method bodies; unknown shape = opaque = obligation fails), harness; sort.Sort contract, IEEE-754 for Decimal64, enum ids within int32.",
